@@ -160,6 +160,26 @@ func runChains(r *engine.Run) {
 	m.run()
 }
 
+// ---- insertion order: one object, three names, only put / delete / one non-enumerable definition, deeper histories ----
+
+func runOrder(r *engine.Run) {
+	depth := 5
+	if r.Thorough() {
+		depth = 6
+	}
+	var ops []op
+	for _, n := range []string{"x", "y", "0"} {
+		ops = append(ops, op{kind: "put", obj: "o", name: n, v: 1}, op{kind: "del", obj: "o", name: n})
+	}
+	ops = append(ops, op{kind: "def", obj: "o", name: "x", d: dValue1})
+	m := &machine{r: r, tag: "order", setup: `o = {}; __extra = null; __log = []; 0`, model: plainWorld,
+		objs: []string{"o"}, names: []string{"x", "y", "0"}, ops: ops, maxDepth: depth,
+		// states are also split by the implementation's raw table and order list, so that a
+		// state reached through a deletion is explored separately from the same table built directly
+		hidden: true, known: knownPointers}
+	m.run()
+}
+
 // ---- family 3: the slot machine on receivers with other object classes ----
 
 type receiver struct {
